@@ -933,7 +933,18 @@ def scenarios(
         # current in every period in which it is connected
         batteries = st.just({"model": "ideal", "cap": 1e6, "init": 0.0, "maxp": 1e3})
         energies = (1e5,)
-    sessions = draw(session_lists(stations, max_per_station=max_per_station, window=window, energies=energies, batteries=battery_specs(noise=noise) if batteries is None else batteries, zero_energy=extras and sched_kind != "always_max"))
+    batt = battery_specs(noise=noise) if batteries is None else batteries
+    sessions = draw(session_lists(stations, max_per_station=max_per_station, window=window, energies=energies, batteries=batt, zero_energy=extras and sched_kind != "always_max"))
+    if extras and draw(st.integers(0, 19)) == 0:
+        # a busy space: 12-25 short stays following each other on the first station
+        stn = stations[0]
+        t = draw(st.integers(0, 3))
+        many = []
+        for j in range(draw(st.integers(12, 25))):
+            d = t + draw(st.integers(1, 2))
+            many.append({"id": "sess-m%d" % j, "station": stn["id"], "arrival": t, "departure": d, "energy": draw(st.sampled_from(list(energies))), "est_departure": None, "battery": draw(batt)})
+            t = d + draw(st.sampled_from([0, 0, 1]))
+        sessions = [x for x in sessions if x["station"] != stn["id"]] + many
     last = max(s["departure"] for s in sessions)
     bulk_add = draw(st.sampled_from([True, False, "mixed", "mixed"]))
     # with events added partly singly and partly in one batch, more stand-alone recompute events
@@ -950,6 +961,24 @@ def scenarios(
         sch = draw(sorted_schedulers(mr=(1, 1, 1, None, 2)))
     if sched_kind == "scripted" and draw(st.integers(0, 3)) == 0:
         sch["reuse_dict"] = True
+    stretch = 1
+    if extras and draw(st.integers(0, 19)) == 0:
+        # the same history in slow motion: every time stamp multiplied by 25 or 60, so that the run
+        # lasts hundreds to a couple of thousand periods, stays last for hundreds of periods and the
+        # result matrices have to grow many times
+        stretch = draw(st.sampled_from([25, 60]))
+        for x in sessions:
+            x["arrival"] *= stretch
+            x["departure"] *= stretch
+            if x.get("est_departure") is not None:
+                x["est_departure"] *= stretch
+        recomputes = [t * stretch for t in recomputes]
+        inert = [t * stretch for t in inert]
+        last *= stretch
+        if sch.get("always_max") and sch.get("max_recompute") is None:
+            # the "submit once per event" variant must cover the longest gap between events
+            for e in sch["table"]:
+                e["rows"] = {k: [v[0]] * (last + 2) for k, v in e["rows"].items()}
     nev = len(sessions) + len(recomputes) + len(inert)
     return {
         "period": draw(PERIODS),
@@ -973,6 +1002,7 @@ def scenarios(
         # that refills one mapping rewrites its own history: not combined (DESIGN.md 8.5d)
         "store_history": draw(st.booleans()) and not sch.get("reuse_dict"),
         "queue_preused": draw(st.sampled_from([None, None, None, 50])),
+        "stretch": stretch,
         # a second site with the same ids is simulated in this process: before the scenario is
         # built, or from inside one of its scheduler calls (what-if / look-ahead simulation)
         "decoy": draw(st.sampled_from([None] * 8 + [{"mode": "before"}, {"mode": "nested", "t": 0}, {"mode": "nested", "t": 1}, {"mode": "nested", "t": 3}])) if extras else None,
@@ -1037,6 +1067,10 @@ def scenario_labels(spec):
         labels.add("second_site_same_ids_simulated_" + ("inside_a_scheduler_call" if spec["decoy"]["mode"] == "nested" else "first"))
     if spec.get("handed_down"):
         labels.add("scheduler_object_already_served_another_simulator")
+    if spec.get("stretch", 1) > 1:
+        labels.add("long_run_hundreds_of_periods")
+    if max(len(v) for v in by_station.values()) >= 12:
+        labels.add("dozens_of_sessions_on_one_station")
     if spec["stations"][0]["id"] in ODD_ID_POOL:
         labels.add("free_text_station_ids")
     return labels
